@@ -9,7 +9,7 @@ from checks import common
 META = {
     "technique": "Lean 4 proof (invariant by induction over every operation history, loop invariants for RemoveModel/Reset/Trim) + exact differential correspondence of full internal state dumps with the real mjCCache + transition oracle on the real class + syntactic lock-discipline scan",
     "text": "mjCCache (Insert, PopulateData, HasAsset, DeleteAsset, RemoveModel, Reset(model), Reset(), SetCapacity/Trim) is modelled as an executable Lean state machine with size_t wrap-around on byte counts. Proved for every operation history from the empty cache (byte counts and capacities < 2^63): size = sum of held asset sizes, size <= capacity, asset ids unique, insertion numbers unique, models_ and per-asset reference sets mutually consistent, no undefined behaviour (empty-queue dereference / dangling asset pointer) is reached; a lookup hit returns exactly the data of the most recent storing insert of that id and only when the resource timestamp equals the cached one; Trim evicts a prefix of the (access count, insertion number) order and stops as soon as the size fits; RemoveModel keeps every asset that another model still references (with unchanged data) and drops the others. The hand-written model is tied to the tree by replaying the same op lines through the real class (linked from the from-source build) and comparing complete canonical state dumps (size, capacity, counter, every asset field, priority-queue order, model tables) exactly: exhaustive histories over 2 models x 3 ids x 3 sizes x 2 timestamps (full alphabet to length 2/3, sub-alphabets and two fixed eviction/sharing alphabets to length 5/6) and seeded random long histories; an oracle evaluates the property predicates on every transition of the real class alone (size = recomputed sum, size <= capacity, queue order, cross references, lookup results against the last storing insert, minimal-prefix eviction, survival of shared assets). Concurrency: proved for sequential histories only; a scan of user_cache.{h,cc} checks that every public method holds the single std::mutex for its whole body (lock_guard first statement, private helpers lock-free and only reachable from members), so concurrent histories linearise in lock-acquisition order to the sequential model; a multi-threaded stress run checks the final state against the invariant and every concurrent hit against the version asked for (thorough tier also replays the random streams on the address/UB-sanitizer build).",
-    "note": "entries_ (the std::set priority queue) is not stored in the model: it is represented by the asset list ordered by (access, insertNum); its agreement with lookup_ is covered by the correspondence of the dumped queue order and pointer-liveness checks in the harness, not by a theorem. Asset pointers are represented by ids; sets are duplicate-free lists (proved for the per-model sets; for references_ and the key list of models_ covered by the dump comparison only). Counters insert_num_/access_count_ are unbounded naturals in the model. Linearisability rests on the syntactic lock scan plus the C++ memory model, not on a Lean theorem; the lifetime of the string pointer returned by HasAsset after the lock is released is outside the model. The resource `modified` callback is provider-defined: modelled for a provider that compares timestamps and for a provider-less resource (always modified).",
+    "note": "entries_ (the std::set priority queue) is not stored in the model: it is represented by the asset list ordered by (access, insertNum); its agreement with lookup_ is covered by the correspondence of the dumped queue order and pointer-liveness checks in the harness, not by a theorem. Asset pointers are represented by ids; sets are duplicate-free lists (proved: rep_run and the invariant). Counters insert_num_/access_count_ are unbounded naturals in the model. Linearisability rests on the syntactic lock scan plus the C++ memory model, not on a Lean theorem; the lifetime of the string pointer returned by HasAsset after the lock is released is outside the model. The resource `modified` callback is provider-defined: modelled for a provider that compares timestamps and for a provider-less resource (always modified).",
 }
 
 P = "MjProof.C38."
@@ -23,6 +23,7 @@ THEOREMS = [P + t for t in (
     "insert_nums_unique",
     "refs_consistent",
     "no_ub",
+    "rep_run",
     "lookup_hit_iff",
     "lookup_latest_unmodified",
     "lookup_coherent",
@@ -137,7 +138,7 @@ def gen_exhaustive(ctx, hs, scopes):
     # (b') fixed alphabets aimed at the eviction order and at assets shared between models
     evict = ["ins 0 0 0 0 1", "ins 0 1 0 1000 3", "ins 1 2 0 2000 1", "pop 0 0", "pop 1 0", "cap 2", "cap 6"]
     share = ["ins 0 0 0 0 1", "ins 1 0 0 0 1", "ins 1 0 1 1 3", "ins 0 1 0 1000 3", "rm 0", "rm 1", "rst 1", "del 0"]
-    for name, al, L3 in (("exh-evict", evict, 6 if thorough else 5), ("exh-share", share, 5)):
+    for name, al, L3 in (("exh-evict", evict, 6 if thorough else 5), ("exh-share", share, 5 if thorough else 4)):
         for h in itertools.product(al, repeat=L3):
             hs.append((name, True, ["new 6"] + list(h)))
         scopes.append("all %d^%d histories over the fixed alphabet %s, capacity 6" % (len(al), L3, al))
@@ -551,7 +552,8 @@ def run(ctx):
         if len(outs) == len(lines) and name in ("exh-evict", "random"):
             # a real case from this run in which SetCapacity evicted something
             k = next((j for j, l in enumerate(lines) if j > 50 and l.startswith("cap")
-                      and outs[j - 1].split(" | ")[2] != outs[j].split(" | ")[2]), None)
+                      and outs[j - 1].split(" | ")[2] != outs[j].split(" | ")[2]
+                      and outs[j].split(" | ")[2] != "assets: "), None)
             if k is not None:
                 ctx.sample({"stream": name, "op": lines[k], "state_before": outs[k - 1], "model_and_impl_output": outs[k]})
     if ctx.tier == "thorough":
